@@ -519,6 +519,8 @@ Proof.
   - apply Hsame; reflexivity.
   - apply Hsame; [|reflexivity]. cbn [step]. destruct (Nat.leb (nobj s) o); [reflexivity|].
     destruct (is_running_obj _ _ _ _) as [[r ob'] ru']. reflexivity.
+  - apply Hsame; [|reflexivity]. cbn [step]. destruct (n <? 0); [reflexivity|].
+    destruct (n =? 0); [destruct (pids_sorted _) as [[l low]| |]; reflexivity|]. destruct (_ && _); reflexivity.
 Qed.
 
 Lemma Inv3_init valid : Inv3 valid (init, fun _ => gh_none).
